@@ -39,6 +39,9 @@ type (
 		Keys map[string]*Map
 		// per key column: the Go types of its non-NULL values
 		keyTypes map[int]map[string]struct{}
+		// the keys in the order in which the rows introduce them: the order the join works in,
+		// so that the same tables give the same sequence of rows every time
+		order []string
 	}
 )
 
@@ -100,6 +103,7 @@ func ToCatalog(rows []any, ident string, identRight string, joinExpr sqlparser.E
 		if _, ok := hashedTable.Keys[hash]; !ok {
 			hashedTable.Rows[hash] = make([]*any, 0)
 			hashedTable.Keys[hash] = &mapper
+			hashedTable.order = append(hashedTable.order, hash)
 		}
 		hashedTable.Rows[hash] = append(hashedTable.Rows[hash], &r)
 	}
@@ -224,7 +228,7 @@ func mixedKeyTypes(l, r *HashedTable) bool {
 
 func (j *Join) HashJoinFunc(l, r *HashedTable) ([]any, error) {
 	slice := make([]any, 0)
-	for lk := range l.Rows {
+	for _, lk := range l.order {
 		switch ok, matches, err := j.HashJoinMatchFunc(lk, l, r); {
 		case ok:
 			{
@@ -246,7 +250,8 @@ func (j *Join) HashJoinFunc(l, r *HashedTable) ([]any, error) {
 func (j *Join) JoinFunc(l, r *HashedTable) ([]any, error) {
 	var mut sync.Mutex
 	slice := make([]any, 0)
-	for lk, lv := range l.Keys {
+	for _, lk := range l.order {
+		lv := l.Keys[lk]
 		switch ok, matches, err := j.JoinMatchFunc(lk, lv, l, r); {
 		case ok:
 			{
@@ -270,12 +275,14 @@ func (j *Join) JoinFunc(l, r *HashedTable) ([]any, error) {
 func (j *Join) ParallelJoinFunc(l, r *HashedTable) ([]any, error) {
 	var mut sync.Mutex
 	var wg sync.WaitGroup
-	slice := make([]any, 0)
+	// every key has its own place for what its goroutine finds: the result is put together in key order
+	parts := make([][]any, len(l.order))
 	var failure error
 
-	for lk, lv := range l.Keys {
+	for i, lk := range l.order {
+		lv := l.Keys[lk]
 		wg.Add(1)
-		go func(lk string, lv *map[string]any) {
+		go func(i int, lk string, lv *map[string]any) {
 			defer wg.Done()
 			defer func() {
 				if r := recover(); r != nil {
@@ -289,9 +296,7 @@ func (j *Join) ParallelJoinFunc(l, r *HashedTable) ([]any, error) {
 			switch ok, matches, err := j.JoinMatchFunc(lk, lv, l, r); {
 			case ok:
 				{
-					mut.Lock()
-					slice = append(slice, matches...)
-					mut.Unlock()
+					parts[i] = matches
 				}
 			case !ok && err != nil:
 				{
@@ -307,11 +312,15 @@ func (j *Join) ParallelJoinFunc(l, r *HashedTable) ([]any, error) {
 					break
 				}
 			}
-		}(lk, lv)
+		}(i, lk, lv)
 	}
 	wg.Wait()
 	if failure != nil {
 		return nil, failure
+	}
+	slice := make([]any, 0)
+	for _, part := range parts {
+		slice = append(slice, part...)
 	}
 	return slice, nil
 }
@@ -319,7 +328,8 @@ func (j *Join) ParallelJoinFunc(l, r *HashedTable) ([]any, error) {
 func (j *Join) JoinMatchFunc(lk string, lv *map[string]any, l, r *HashedTable) (bool, []any, error) {
 	slice := make([]any, 0)
 	b := false
-	for rk, rv := range r.Keys {
+	for _, rk := range r.order {
+		rv := r.Keys[rk]
 		_current := make(Map)
 		maps.Copy(_current, *lv)
 		maps.Copy(_current, *rv)
@@ -377,11 +387,11 @@ func (j *Join) JoinMatchFunc(lk string, lv *map[string]any, l, r *HashedTable) (
 func (j *Join) ParallelHashJoinFunc(l, r *HashedTable) ([]any, error) {
 	var mut sync.Mutex
 	var wg sync.WaitGroup
-	slice := make([]any, 0)
+	parts := make([][]any, len(l.order))
 	var failure error
-	for lk := range l.Rows {
+	for i, lk := range l.order {
 		wg.Add(1)
-		go func(lk string) {
+		go func(i int, lk string) {
 			defer wg.Done()
 			defer func() {
 				if r := recover(); r != nil {
@@ -395,9 +405,7 @@ func (j *Join) ParallelHashJoinFunc(l, r *HashedTable) ([]any, error) {
 			switch ok, matches, err := j.HashJoinMatchFunc(lk, l, r); {
 			case ok:
 				{
-					mut.Lock()
-					slice = append(slice, matches...)
-					mut.Unlock()
+					parts[i] = matches
 				}
 			case !ok && err != nil:
 				{
@@ -413,11 +421,15 @@ func (j *Join) ParallelHashJoinFunc(l, r *HashedTable) ([]any, error) {
 					break
 				}
 			}
-		}(lk)
+		}(i, lk)
 	}
 	wg.Wait()
 	if failure != nil {
 		return nil, failure
+	}
+	slice := make([]any, 0)
+	for _, part := range parts {
+		slice = append(slice, part...)
 	}
 	return slice, nil
 }
